@@ -35,6 +35,10 @@ func Alphabet(M uint64) []g.Instruction {
 		ins(g.NOP, g.B, D, 0, D, 0, M),             // fall through
 		ins(g.SNE, g.B, I, 0, D, 0, M),             // skip on a non-zero B-field
 		ins(g.ADD, g.AB, I, 1, D, -1, M),           // modifies the previous cell
+		ins(g.JMZ, g.B, D, -1, D, 1, M),            // jumps back while the next cell's B-field is zero
+		ins(g.JMN, g.B, D, -1, D, 0, M),            // jumps back while its own B-field is non-zero (it is zero: falls through)
+		ins(g.MOV, g.I, g.B_DECREMENT, 1, D, 2, M), // A operand with a pre-decrement
+		ins(g.JMP, g.B, g.A_INCREMENT, 1, D, 0, M), // A operand with a post-increment
 	}
 }
 
@@ -320,12 +324,12 @@ func Run(rep *hx.Report, props Props, tier string, sh hx.Shard, deadline time.Ti
 			lims := [][2]uint64{{m, m}, {3, 4}}
 			if thorough {
 				rep.Bound = "M in {8,5}, limits (M,M) and (3,4): all programs of length 1..2 over 16 letters alone; all ordered pairs of programs of length 1..2 over 10 letters x every offset x every entry point at P=2; all triples over 8 letters x all offset pairs; each x every shift in [0,M) x offset spellings off+jM, j in 0..2"
-				r.singles(m, Programs(al, 16, 2), lims, 12)
+				r.singles(m, Programs(al, len(al), 2), lims, 12)
 				r.pairs(m, Programs(al, 10, 2), []uint64{2}, []uint64{12}, lims, true)
 				r.triples(m, al, 8, []uint64{2}, 10, lims[:1])
 			} else {
-				rep.Bound = "M in {8,5}, limits (M,M) and (3,4): all programs of length 1..2 over 16 letters and of length 3 over 6 letters alone (first and last instruction as entry point); all ordered pairs of programs of length 1..2 over 6 letters x every offset at P=2; all triples over 5 letters; each x every shift x 3 offset spellings"
-				r.singles(m, Programs(al, 16, 2), lims, 10)
+				rep.Bound = "M in {8,5}, limits (M,M) and (3,4): all programs of length 1..2 over the 20-letter alphabet and of length 3 over 6 letters alone (first and last instruction as entry point); all ordered pairs of programs of length 1..2 over 6 letters x every offset at P=2; all triples over 5 letters; each x every shift x 3 offset spellings"
+				r.singles(m, Programs(al, len(al), 2), lims, 10)
 				r.singles(m, Programs(al, 6, 3)[42:], lims[:1], 10) // the 216 three-instruction programs over 6 letters
 				r.pairs(m, Programs(al, 6, 2), []uint64{2}, []uint64{10}, lims, true)
 				r.triples(m, al, 5, []uint64{2}, 8, lims[:1])
